@@ -129,8 +129,89 @@ def main():
             bad += not ok
         except Exception as ex:
             print('ERROR', sc['op'], repr(ex)[:300]); bad += 1
+    bad += tape_vs_file()
     print('crosscheck', 'OK' if not bad else 'FAILED (%d)' % bad)
     return 1 if bad else 0
+
+
+# ---------------------------------------------------------------------------------------------
+# the record tape against the real file: the records the real t2data.write() puts on the tape, rendered by the real
+# write_values_to_string, must be exactly the lines the real write() puts in a real file for the same model
+
+def tape_records(flavour, mesh, xp, shape):
+    from pyvc.engine import Engine, Obj
+    from contracts import c01
+    e = Engine(REPO, timeout_ms=20000, extra_paths=['/verif/contracts'])
+    out = {}
+    class Concrete(c01.SymBackend):
+        count = 0
+        def real(self, name, lo=None, hi=None):
+            self.count += 1
+            v = 1.0 + 0.37 * self.count
+            if hi is not None: v = min(v, hi)
+            return Fraction(float(v))
+        def int(self, name, lo, hi): return lo
+        def nonzero(self, v): pass
+    def plain(v):
+        if isinstance(v, Fraction): return float(v)
+        if isinstance(v, Obj):
+            rep = v.cls.lookup('__str__') or v.cls.lookup('__repr__')
+            return e.call(rep, [v])
+        return v
+    def prog(e):
+        from contracts.c01_model import build_model
+        m = e.load_module('t2data').globals
+        d = build_model(Concrete(e), flavour, shape)
+        files = c01.TapeFiles(e, {'main': m['t2data_format_specification'], 'xp': m['t2data_extra_precision_format_specification']})
+        files.install()
+        kw = {'meshfilename': 'MESH'} if mesh else {}
+        if xp: kw.update(extra_precision=xp[0], echo_extra_precision=xp[1])
+        e.call(e.getattr(d, 'write'), ['model.dat'], kw)
+        for name, t in files.files.items():
+            out[name] = [list(r[:2]) + ([[plain(v) for v in r[2]]] if r[0] == 'rec' else []) for r in t.recs]
+    e.explore(prog, 'tape')
+    return out
+
+
+def tape_vs_file():
+    bad = 0
+    for flavour, mesh, xp, shape in [('TOUGH2', False, None, {}), ('AUTOUGH2', False, None, {}), ('AUTOUGH2', True, None, {'short': False, 'timesteps': 17}), ('AUTOUGH2', False, (True, True), {})]:
+        recs = tape_records(flavour, mesh, xp, shape)
+        code = r'''
+import sys, json, os, tempfile, shutil
+sys.path.insert(0, %r); sys.path.insert(0, '/verif')
+import t2data as T
+from contracts.c01_model import build_model, NativeBackend
+recs = json.loads(%r)
+flavour, mesh, xp, shape = json.loads(%r)
+d = build_model(NativeBackend({}), flavour, shape)
+tmp = tempfile.mkdtemp(dir='/var/tmp')
+try:
+    kw = {'meshfilename': os.path.join(tmp, 'MESH')} if mesh else {}
+    if xp: kw.update(extra_precision=xp[0], echo_extra_precision=xp[1])
+    d.write(os.path.join(tmp, 'model.dat'), **kw)
+    bad = []
+    for name, rr in recs.items():
+        real = open(os.path.join(tmp, name)).read()
+        spec = T.t2data_extra_precision_format_specification if name.endswith('pdat') else T.t2data_format_specification
+        f = T.fixed_format_file.__new__(T.fixed_format_file); f.specification = spec; f.read_function = T.default_read_function; f.preprocess_specification()
+        text = ''
+        for r in rr:
+            text += r[1] if r[0] == 'raw' else f.write_values_to_string(r[2], r[1]) + '\n'
+        a, b = [l.rstrip() for l in text.split('\n')], [l.rstrip() for l in real.split('\n')]
+        if a != b:
+            k = [i for i, (x, y) in enumerate(zip(a, b)) if x != y]
+            bad.append('%%s: %%d tape lines, %%d file lines; first difference %%r' %% (name, len(a), len(b), (a[k[0]], b[k[0]]) if k else None))
+    print('@@' + json.dumps(bad))
+finally:
+    shutil.rmtree(tmp)
+''' % (REPO, json.dumps(recs), json.dumps([flavour, mesh, xp, shape]))
+        p = subprocess.run(['/venv/bin/python', '-W', 'ignore', '-c', code], capture_output=True, text=True, cwd='/var/tmp')
+        line = [l for l in p.stdout.split('\n') if l.startswith('@@')]
+        res = json.loads(line[0][2:]) if line else ['native side failed: ' + p.stderr[-400:]]
+        print('%s tape vs file %s mesh=%s xp=%s %s' % ('agree ' if not res else 'DIFFER', flavour, mesh, xp, res[:2] if res else '(%d files, %d records)' % (len(recs), sum(len(v) for v in recs.values()))))
+        bad += bool(res)
+    return bad
 
 
 if __name__ == '__main__':
